@@ -8,9 +8,17 @@ import (
 func (e *fnEnc) stdlibModel(c *blockCtx, in ssa.Instruction, name string, args []Term, cc *ssa.CallCommon) ([]Term, bool) {
 	switch name {
 	case "strings.Compare":
-		if args[0].Sort == SStr {
-			return []Term{e.strCompare(args[0], args[1])}, true
+		return []Term{e.strCompare(args[0], args[1])}, true
+	case "bytes.Compare":
+		if e.strAbstract {
+			return []Term{e.strCompare(e.abytes(c.st, args[0]), e.abytes(c.st, args[1]))}, true
 		}
+		comp, cs := e.elemComp(SInt)
+		h := e.heapGet(c.st, comp, cs)
+		mk := func(sl Term) Term {
+			return app(SStr, "mk-str", sel(h, slBase(sl), ArrayOf(SInt, SInt)), slOff(sl), slLen(sl))
+		}
+		return []Term{e.strCompare(mk(args[0]), mk(args[1]))}, true
 	}
 	return nil, false
 }
